@@ -23,8 +23,8 @@ def cfg : Cfg := { flags := dirScanKeepUid ||| dirScanKeepGid ||| dirScanKeepMod
                    defMtime := 0, pfx := [], filePrefix := none, pattern := none }
 def fnm : Fnm := fun _ _ _ => true
 
-def inodesOf (r : Except Err Result) : Option (List Path) := match r with | .ok r => some r.inodes | .error _ => none
-def filesOf (r : Except Err Result) : Option (List Path) := match r with | .ok r => some r.files | .error _ => none
+def inodesOf (r : Option Result) : Option (List Path) := r.map (·.inodes)
+def filesOf (r : Option Result) : Option (List Path) := r.map (·.files)
 
 theorem inodes_abc : inodesOf (packDir false dflt cfg fnm 1 [fa, fb, fc]) = some [[[0x61]], [[0x62]], []] := by decide
 theorem inodes_cba : inodesOf (packDir false dflt cfg fnm 1 [fc, fb, fa]) = some [[[0x62]], [[0x63]], []] := by decide
